@@ -32,6 +32,7 @@ type Behav struct {
 	DelayUS     int    `json:"delayus,omitempty"`     // the implementation dwells this many microseconds before it answers
 	Size        int    `json:"size,omitempty"`        // answer size knob (stat name length, error text length, read bytes)
 	NoQid       int    `json:"noqid,omitempty"`       // Walk: answer only this many qids (+1), i.e. NoQid-1 qids; 0 = by name convention
+	ZeroQid     bool   `json:"zeroqid,omitempty"`     // Walk: answer Rwalk with no qid at all, also for a walk with names (the extreme partial walk)
 }
 
 // Entry is one line of the implementation's log.
@@ -285,6 +286,9 @@ func ExpectedAnswer(m *ref9p.Msg, b Behav, fidType uint8) *ref9p.Msg {
 				break
 			}
 			qs = append(qs, QidFor(n, key))
+		}
+		if b.ZeroQid {
+			return &ref9p.Msg{Type: ref9p.Rwalk}
 		}
 		if len(m.Wname) > 0 && len(qs) == 0 {
 			return &ref9p.Msg{Type: ref9p.Rerror, Ename: "file not found", Ecode: 2}
